@@ -207,7 +207,7 @@ func (s *streamWriter) Start() {
 
 func lookupPIDs(m map[uint64]int32, pid *actor.PID, pids []*actor.PID) (int32, []*actor.PID) {
 	if pid == nil {
-		return 0, pids
+		return noSenderIndex, pids
 	}
 	max := int32(len(m))
 	key := pid.LookupKey()
